@@ -156,6 +156,13 @@ def region_of(o: dict, prog: dict, open_f: list) -> str | None:
             return "C03-right-join-on-true-to-cross"
         if "C03-subquery-predicate-as-value" in ids and rule == "unnest_subqueries" and _subquery_predicate_as_value(before):
             return "C03-subquery-predicate-as-value"
+        if "C03-cross-join-limit1-eliminated" in ids and rule == "eliminate_joins" and "CROSS JOIN" in before and "LIMIT 1" in before \
+                and after.count("CROSS JOIN") < before.count("CROSS JOIN"):
+            return "C03-cross-join-limit1-eliminated"
+        if "C03-aggregate-projection-pruned" in ids and rule == "pushdown_projections" and "GROUP BY" not in before:
+            aggs = lambda t: sum(t.count(f) for f in ("SUM(", "COUNT(", "MIN(", "MAX(", "AVG("))
+            if aggs(after) < aggs(before):
+                return "C03-aggregate-projection-pruned"
         return None
 
     if rule != "optimize(all rules)":
